@@ -80,8 +80,20 @@ RULE = ("(a) E1: every history of the union driver (2 apps, 3 sides, crowding, r
         "and the next sweep must do the work. non-trivial = histories that reached quiescence / met an expired mailbox")
 
 
+class C13Restart(C13):
+    """rows written by a previous process must be swept too: file-backed, one restart allowed before quiescence"""
+
+    def configure(self, tier):
+        C13.configure(self, tier)
+        self.cfg = dict(storage="file")
+        d = self.driver
+        d.max_restarts = 1
+        d.max_conns = min(d.max_conns, 3)
+        self.depth = 5 if tier == "quick" else 7
+
+
 def make_spec(tier, name=None):
-    return C13(tier)
+    return C13Restart(tier) if name == "c13-restart" else C13(tier)
 
 
 def run(pid, tier, seed, args):
@@ -95,5 +107,7 @@ def run(pid, tier, seed, args):
     cov["timed_evaluations"] = res["evals"]
     cov["timed_capped"] = res["capped"]
     cov["fault_scenarios"] = sum(1 for s in timed.scenarios(tier, dict(storage="memory"), with_faults=True)[0] if s.fault is not None)
-    return run_specs(pid, tier, seed, args, [("c13", spec, spec.depth, 60 if tier == "quick" else 1200)], rule=RULE,
+    spec2 = make_spec(tier, "c13-restart")
+    return run_specs(pid, tier, seed, args, [("c13", spec, spec.depth, 60 if tier == "quick" else 1200),
+                                             ("c13-restart", spec2, spec2.depth, 40 if tier == "quick" else 600)], rule=RULE,
                      extra_cov=cov, extra_viols=viols, extra_samples=[{"timed_scenario": samples[1]}])
